@@ -15,8 +15,9 @@ int vw_c02_lex_state (char *buf, int len) {
   for (k = 0, lb = cur_lbuf; lb && lb != &head_lbuf; lb = lb->prev) k++;
   n += snprintf (buf + n, len - n, "D lex.linked_input_buffers=%d\n", k);
   n += snprintf (buf + n, len - n, "D lex.current_file=%s\n", current_file ? current_file : "(null)");
-  n += snprintf (buf + n, len - n, "D lex.function_flag=%d\n", function_flag);
-  n += snprintf (buf + n, len - n, "D lex.wide_char_literal=%d\n", wide_char_literal);
+  /* both are per-token flags of yylex(); whether a stale value is harmful is decided by the probe compiled next */
+  n += snprintf (buf + n, len - n, "P lex.function_flag=%d\n", function_flag);
+  n += snprintf (buf + n, len - n, "P lex.wide_char_literal=%d\n", wide_char_literal);
   n += snprintf (buf + n, len - n, "D lex.defines_need_freed=%d\n", defines_need_freed);
   n += snprintf (buf + n, len - n, "P lex.incnum=%d\nP lex.lex_fatal=%d\nP lex.nexpands=%d\nP lex.pragmas=%d\nP lex.num_parse_error=%d\n", incnum, lex_fatal, nexpands, pragmas, num_parse_error);
   n += snprintf (buf + n, len - n, "P lex.current_line=%d\nP lex.current_line_base=%d\nP lex.current_line_saved=%d\nP lex.current_file_id=%d\n", current_line, current_line_base,
